@@ -78,10 +78,14 @@ def replay_dcases(rep, wd, cases, tag):
     outp = os.path.join(wd, "dreplay_%s.ndjson" % tag)
     p = vlib.harness(["header", "diff-replay", "--cases", cp, "--out", outp])
     info = json.loads(p.stdout.strip().splitlines()[-1])
+    seen = set()
     for mm in vlib.read_ndjson(outp):
         c = mm["case"]
-        sig = "difficulty:replay:%s:%s:%s:%s" % (c["ct"], mm["what"], "wtema" if c["v"] >= 5 else "dma",
-                                                 "padded" if c["n"] < 61 else "full")
+        algo = "wtema" if c["v"] >= 5 else ("dma:padded" if c["n"] < 61 else "dma:full")
+        sig = "difficulty:replay:%s:%s:%s" % (c["ct"], mm["what"], algo)
+        if sig in seen:      # one replay file per distinct signature
+            continue
+        seen.add(sig)
         rep.violation(sig, {"kind": "dcase", "case": c, "expected": mm["expected"], "observed": mm["observed"]}, json.dumps(mm)[:500])
     return info
 
